@@ -114,9 +114,24 @@ def scalarised_wallprofile(src):
                     fn = f
     if fn is None:
         raise TranslateError("EOM.wallProfile not found")
-    if [a.arg for a in fn.args.args] != WALLPROFILE_PARAMS:
-        raise TranslateError("wallProfile parameters changed: %s" % [
-            a.arg for a in fn.args.args])
+    actual = [a.arg for a in fn.args.args]
+    if len(actual) != len(WALLPROFILE_PARAMS) or actual[0] != "self" or fn.args.vararg or \
+            fn.args.kwarg or fn.args.kwonlyargs:
+        raise TranslateError("wallProfile signature changed: %s" % actual)
+    if actual != WALLPROFILE_PARAMS:
+        # parameters are identified by position; rename them to the canonical names
+        ren = dict(zip(actual, WALLPROFILE_PARAMS))
+        clash = {n.id for n in ast.walk(fn) if isinstance(n, ast.Name)} & \
+            (set(WALLPROFILE_PARAMS) - set(actual))
+        if clash:
+            raise TranslateError("wallProfile: local names %s clash with canonical "
+                                 "parameter names" % sorted(clash))
+        fn = copy.deepcopy(fn)
+        for n in ast.walk(fn):
+            if isinstance(n, ast.Name) and n.id in ren:
+                n.id = ren[n.id]
+            if isinstance(n, ast.arg) and n.arg in ren:
+                n.arg = ren[n.arg]
     span = (fn.lineno, fn.end_lineno, pyrx._sha(ast.unparse(fn)))
     fn2 = copy.deepcopy(fn)
     sc = _Scalarise()
@@ -252,6 +267,7 @@ def updategrid_defs(src):
 
 GRID_READERS = {"getCompactificationDerivatives", "getCompactCoordinates",
                 "getCoordinates"}
+GRID_PURE_METHODS = {"wallProfile", "_toWallParams", "findPlasmaProfile", "action"}
 
 
 class _Lazy:
@@ -271,10 +287,12 @@ class PressureSlice:
                 for f in n.body:
                     if isinstance(f, ast.FunctionDef) and f.name == self.METHOD:
                         self.fn = f
+                        self.cls = n
         if self.fn is None:
             raise TranslateError("EOM.%s not found" % self.METHOD)
+        self.check_pure_methods(self.cls)
         self.params = [a.arg for a in self.fn.args.args]
-        for need in ("wallParams", "vevLowT", "vevHighT"):
+        for need in ("wallParams", "vevLowT", "vevHighT", "boltzmannResults"):
             if need not in self.params:
                 raise TranslateError("%s has no parameter %s" % (self.METHOD, need))
         self.fresh = 0
@@ -284,20 +302,57 @@ class PressureSlice:
         self.run()
 
     # -- helpers ---------------------------------------------------------------------
+    def new_br(self, st):
+        k = max(self.br_versions) + 1
+        self.br_versions[k] = "line %d: %s" % (st.lineno,
+                                               " ".join(ast.unparse(st).split())[:70])
+        return k
+
+    @staticmethod
+    def stores_br(node):
+        for n in ast.walk(node):
+            if isinstance(n, ast.Name) and isinstance(n.ctx, ast.Store) and \
+                    n.id == "boltzmannResults":
+                return True
+            if isinstance(n, ast.Attribute) and isinstance(n.ctx, ast.Store) and \
+                    ast.unparse(n).startswith("boltzmannResults"):
+                return True
+        return False
+
     def binder(self):
         self.fresh += 1
         return "j%d" % self.fresh
 
-    def grid_mutations(self, node):
-        """number of possible mutations of self.grid inside `node`"""
+    def grid_mutations(self, node, pure=None):
+        """number of possible mutations of self.grid inside `node`.  FAIL CLOSED: every
+        call through `self` is a possible re-mapping of the grid unless it is a known
+        reader of the grid, one of the methods of EOM known not to touch the grid
+        (GRID_PURE_METHODS: their bodies are checked by `check_pure_methods`), or goes
+        to self.thermo (which does not hold the grid).  self.boltzmannSolver shares the grid
+        object, so its calls count.  Handing `self` or `self.grid` to anything but the
+        Polynomial constructor counts as well."""
         n = 0
+        pure = GRID_PURE_METHODS if pure is None else pure
         for c in ast.walk(node):
             if isinstance(c, ast.Call):
                 f = ast.unparse(c.func)
-                if f.startswith("self.grid.") and f.split(".")[2] not in GRID_READERS:
-                    n += 1
-                if f in ("self._updateGrid", "self.grid._cacheCoordinates"):
-                    n += 1
+                parts = f.split(".")
+                if parts[0] == "self" and len(parts) >= 2:
+                    if parts[1] == "grid":
+                        if not (len(parts) == 3 and parts[2] in GRID_READERS):
+                            n += 1
+                    elif len(parts) == 2:
+                        if parts[1] not in pure:
+                            n += 1
+                    elif parts[1] == "thermo":
+                        pass
+                    else:
+                        n += 1
+                args = list(c.args) + [k.value for k in c.keywords]
+                for a in args:
+                    ua = ast.unparse(a)
+                    if ua == "self" or (ua == "self.grid" and f != "Polynomial"):
+                        n += 1
             if isinstance(c, (ast.Assign, ast.AugAssign, ast.AnnAssign)):
                 tgs = c.targets if isinstance(c, ast.Assign) else [c.target]
                 for t in tgs:
@@ -307,6 +362,31 @@ class PressureSlice:
                                 n += 1
         return n
 
+    def check_pure_methods(self, cls):
+        """the allow-listed methods must themselves be free of grid mutations (same rule,
+        one level deep: inside them only readers, other allow-listed methods, self.thermo
+        and the helper methods they call -- which are checked recursively)"""
+        fns = {f.name: f for f in cls.body if isinstance(f, ast.FunctionDef)}
+        seen, todo = set(), [m for m in GRID_PURE_METHODS if m in fns]
+        while todo:
+            m = todo.pop()
+            if m in seen:
+                continue
+            seen.add(m)
+            for c in ast.walk(fns[m]):
+                if isinstance(c, ast.Call):
+                    parts = ast.unparse(c.func).split(".")
+                    if parts[0] == "self" and len(parts) == 2 and parts[1] in fns and \
+                            parts[1] not in GRID_PURE_METHODS:
+                        if parts[1] == "_updateGrid":
+                            raise TranslateError("%s calls self._updateGrid" % m)
+                        todo.append(parts[1])
+            # calls to other methods of EOM are followed (todo), not counted
+            k = self.grid_mutations(fns[m], pure=set(fns) - {"_updateGrid"})
+            if k:
+                raise TranslateError("EOM.%s (assumed not to touch the grid) may re-map "
+                                     "self.grid" % m)
+
     # -- the walk ----------------------------------------------------------------------
     def run(self):
         val = {}
@@ -315,6 +395,10 @@ class PressureSlice:
         val["wallParams"] = ("wp", 0)
         val["vevLowT"] = ("vev", "lo")
         val["vevHighT"] = ("vev", "hi")
+        # Boltzmann results carry a version as well: 0 = the object passed by the caller
+        val["boltzmannResults"] = ("br", "0%nat")
+        self.br_versions = {0: "value passed by the caller"}
+        self.guards = []
         ver = {"wall": 0, "grid": 0}
         self.result = None
         for st in self.fn.body:
@@ -364,13 +448,17 @@ class PressureSlice:
                         continue
                     if tg.id in ("vevLowT", "vevHighT"):
                         raise TranslateError("%s reassigned (line %d)" % (tg.id, st.lineno))
+                    if tg.id == "boltzmannResults":
+                        val[tg.id] = ("br", "%d%%nat" % self.new_br(st))
+                        continue
                     val[tg.id] = _Lazy(value, None, val, ver, st.lineno)
                     continue
                 if isinstance(tg, (ast.Tuple, ast.List)):
                     lz = {}
                     for k, e in enumerate(tg.elts):
                         if not isinstance(e, ast.Name) or e.id in ("wallParams", "vevLowT",
-                                                                   "vevHighT"):
+                                                                   "vevHighT",
+                                                                   "boltzmannResults"):
                             raise TranslateError("unpack target %s (line %d)" % (
                                 ast.unparse(e), st.lineno))
                         lz[e.id] = _Lazy(value, k, val, ver, st.lineno)
@@ -378,7 +466,38 @@ class PressureSlice:
                     continue
                 raise TranslateError("assignment target %s (line %d)" % (
                     ast.unparse(tg), st.lineno))
+            if isinstance(st, ast.If) and self.stores_br(st):
+                # the ONLY place where the Boltzmann results may change is the solve guarded
+                # by `if self.includeOffEq:` (premise of the property: with includeOffEq off
+                # the out-of-equilibrium contributions are the ones passed in)
+                guard = ast.unparse(st.test)
+                if guard != "self.includeOffEq" or st.orelse:
+                    raise TranslateError(
+                        "boltzmannResults is updated under the guard `%s`%s; the model of the "
+                        "premise 'no out-of-equilibrium contribution' needs `if "
+                        "self.includeOffEq:` without else (line %d)" % (
+                            guard, " with an else branch" if st.orelse else "", st.lineno))
+                new = None
+                for b in st.body:
+                    if isinstance(b, ast.Expr):
+                        continue
+                    if isinstance(b, ast.Assign) and len(b.targets) == 1 and \
+                            isinstance(b.targets[0], ast.Name) and \
+                            b.targets[0].id == "boltzmannResults":
+                        new = self.new_br(b)
+                        continue
+                    raise TranslateError("statement under `if self.includeOffEq:` is neither "
+                                         "a call nor boltzmannResults = ... (line %d)" % b.lineno)
+                val = dict(val)
+                prev = val["boltzmannResults"][1]
+                val["boltzmannResults"] = ("br", "(if includeOffEq e then %d%%nat else %s)" % (
+                    new, prev))
+                self.guards.append(dict(line=st.lineno, guard=guard, version=new))
+                continue
             if isinstance(st, (ast.If, ast.For, ast.While, ast.With, ast.Try)):
+                if self.stores_br(st):
+                    raise TranslateError("boltzmannResults assigned under control flow other "
+                                         "than `if self.includeOffEq:` (line %d)" % st.lineno)
                 val = dict(val)
                 for n in ast.walk(st):
                     if isinstance(n, ast.Name) and isinstance(n.ctx, ast.Store):
@@ -458,28 +577,16 @@ class PressureSlice:
                 return a[1][int(c)]
             raise TranslateError("subscript %s (line %d)" % (ast.unparse(node)[:50],
                                                               node.lineno))
+        if isinstance(node, ast.Attribute):
+            a = self.ev(node.value, val, ver)
+            if a[0] == "br":
+                return a           # a component of the Boltzmann results: same version
+            raise TranslateError("attribute %s in the pressure slice (line %d)" % (
+                ast.unparse(node)[:50], node.lineno))
         if isinstance(node, ast.Call):
             return self.call(node, val, ver)
         raise TranslateError("expression %s in the pressure slice (line %d)" % (
             ast.unparse(node)[:50], node.lineno))
-
-    def ev_or_opaque(self, name, val, ver, depth=0):
-        """value of a name used inside the out-of-equilibrium sum: a field profile, or
-        opaque data (Boltzmann results, particles) provided that its definition does not
-        (transitively) use a field profile"""
-        try:
-            return self.ev(name, val, ver)
-        except TranslateError:
-            v = val.get(name.id)
-            if not isinstance(v, _Lazy) or depth > 20:
-                raise
-            for n in ast.walk(v.expr):
-                if isinstance(n, ast.Name) and isinstance(n.ctx, ast.Load) and \
-                        n.id in v.val and n.id != "self":
-                    r = self.ev_or_opaque(n, v.val, v.ver, depth + 1)
-                    if r[0] not in ("opaque", "param", "const"):
-                        raise
-            return ("opaque", name.id)
 
     def arith(self, op, a, b, node):
         kinds = (a[0], b[0])
@@ -546,22 +653,27 @@ class PressureSlice:
                         it, node.lineno))
                 bound = {n.id for n in ast.walk(arg.generators[0].target)
                          if isinstance(n, ast.Name)}
-                terms = {}
+                terms, brs = {}, set()
                 for n in ast.walk(arg.elt):
                     if isinstance(n, ast.Name) and n.id not in bound and n.id != "self":
-                        r = self.ev_or_opaque(n, val, ver)
+                        r = self.ev(n, val, ver)
                         if r[0] == "pf":
                             terms[r[1]("#")] = r
-                        elif r[0] not in ("opaque", "param"):
+                        elif r[0] == "br":
+                            brs.add(r[1])
+                        else:
                             raise TranslateError("%s in the out-of-equilibrium sum "
                                                  "(line %d)" % (n.id, node.lineno))
-                if len(terms) != 1:
-                    raise TranslateError("out-of-equilibrium sum uses %d field profiles "
-                                         "(line %d)" % (len(terms), node.lineno))
+                if len(terms) != 1 or len(brs) != 1:
+                    raise TranslateError("out-of-equilibrium sum uses %d field profiles and "
+                                         "%d Boltzmann results (line %d)" % (
+                                             len(terms), len(brs), node.lineno))
                 F = list(terms.values())[0]
+                b = list(brs)[0]
                 j = self.binder()
                 Fj = F[1](j)
-                return ("pf", lambda i: "(offEq e (fun %s : nat => %s) c %s)" % (j, Fj, i))
+                return ("pf", lambda i: "(offEq e %s (fun %s : nat => %s) c %s)" % (
+                    b, j, Fj, i))
             a = self.ev(arg, val, ver)
             if a[0] == "pf" and ax == 1:
                 j = self.binder()
@@ -590,14 +702,19 @@ class PressureSlice:
     # -- output --------------------------------------------------------------------------
     def coq(self):
         r = self.result
-        doc = ["(* wall-parameter versions:"] + [
+        doc = ["(* Boltzmann-results versions:"] + [
+            "     %d : %s" % kv for kv in sorted(self.br_versions.items())] + [
+            "   updated only under: %s" % ", ".join(
+                "`if %s:` (line %d)" % (g["guard"], g["line"]) for g in self.guards)] + [
+            "   wall-parameter versions:"] + [
             "     %d : %s" % kv for kv in sorted(self.wall_versions.items())] + [
             "   grid versions:"] + ["     %d : %s" % kv for kv in
                                     sorted(self.grid_versions.items())] + ["*)"]
         out = doc + [
             "Record penv := mk_penv {",
             "  dVdPhi : (nat -> R) -> R -> nat -> R;   (* effectivePotential.derivField(fields, T)[field i] *)",
-            "  offEq : (nat -> R) -> R -> nat -> R;    (* out-of-equilibrium term at grid coordinate c, field i *)",
+            "  includeOffEq : bool;                    (* self.includeOffEq *)",
+            "  offEq : nat -> (nat -> R) -> R -> nat -> R; (* out-of-equilibrium term built from Boltzmann-results version b, at grid coordinate c, field i *)",
             "  fieldSum : (nat -> R) -> R;             (* np.sum(..., axis=1): sum over the fields *)",
             "  xi : nat -> R -> R;                     (* grid.xiValues as a function of the compact coordinate, per grid version *)",
             "  dzdchi : nat -> R -> R;                 (* grid.getCompactificationDerivatives()[0] *)",
@@ -605,6 +722,7 @@ class PressureSlice:
             "Definition pressure_integrand (pe : env) (e : penv) (lo hi : nat -> R) "
             "(wid off : nat -> nat -> R) (c : R) : R :=",
             "  %s." % r["term"],
+            "Definition incoming_boltzmann_version : nat := 0%nat.",
             "Definition returned_wall_version : nat := %d%%nat." % r["wall"],
             "Definition final_grid_version : nat := %d%%nat." % r["grid"],
             "Definition quadrature_grid_version : nat := %d%%nat." % r["quad_grid"],
@@ -638,6 +756,7 @@ def generate(src):
              "pressure_integrand": (sl.fn.lineno, sl.fn.end_lineno,
                                     pyrx._sha(ast.unparse(sl.fn)))}
     info = dict(spans=spans, result=sl.result, wall_versions=sl.wall_versions,
+                br_versions=sl.br_versions, guards=sl.guards,
                 grid_versions=sl.grid_versions, profile_calls=sl.facts,
                 scalarised=ssrc, asserts=tr.asserts)
     return text, info
